@@ -33,5 +33,5 @@ def run(ctx, report):
     # "exactly when the raw RLP stored under the key is the canonical encoding": every stored value is exactly one complete item
     # (validator = decoder row per key, and every content insert is encoder output or validated)
     from rules import c05
-    c05._own_run(ctx, Only(report, {"VALID": "VALID", "INV-RLP": "INV-RLP"}))
+    c05._own_run(ctx, Only(report, {"VALID": "VALID", "INV-RLP": "INV-RLP", "BUILD": "KEYED-BUILD"}))
 
